@@ -322,7 +322,7 @@ func run(e *core.Env) {
 			if r.Dir == 1 {
 				dst = att.Pair.A
 			}
-			kind := tp.Intn(14)
+			kind := tp.Intn(16)
 			if kind == 13 {
 				// Not a fault at all for a byte stream: the oldest 2..4 records of one direction
 				// reach the reader back to back, as one chunk (TCP coalesces segments, a busy
@@ -364,6 +364,18 @@ func run(e *core.Env) {
 				kind = 11 // no truncation in framing-preserving runs
 			}
 			switch kind {
+			case 14, 15: // reflect: a genuine record of this connection turns up in the opposite
+				// direction, at the end that sealed it (the pending one, or one delivered earlier)
+				src := r.Data
+				if hist := intact[r.Dir]; len(hist) > 0 && tp.Chance(1, 2) {
+					src = hist[len(hist)-1-tp.Intn(min(len(hist), 5))]
+				}
+				back := att.Pair.A
+				if r.Dir == 1 {
+					back = att.Pair.B
+				}
+				cn.DeliverBytes(back, append([]byte(nil), src...), false)
+				e.Fault("reflect_record")
 			case 11, 12: // forge: a genuine record with one of its header counters moved forward (or the
 				// whole body randomised as well); the length prefix stays right
 				src := r.Data
